@@ -285,6 +285,7 @@ func genSymCase(r *Rng, mode string) *c13SymCase {
 
 type c13SymEnv struct {
 	dir, toolsA, toolsL string
+	hung                map[string]bool // chains whose concurrent variant already timed out in this run
 }
 
 func (e *c13Env) symEnv() *c13SymEnv {
@@ -296,7 +297,7 @@ func (e *c13Env) symEnv() *c13SymEnv {
 		panic("C13: os.Executable: " + err.Error())
 	}
 	os.Setenv(c13FakeEnv, "1")
-	s := &c13SymEnv{dir: filepath.Join(e.dir, "sym"), toolsA: filepath.Join(e.dir, "tools-a2l"), toolsL: filepath.Join(e.dir, "tools-llvm")}
+	s := &c13SymEnv{hung: map[string]bool{}, dir: filepath.Join(e.dir, "sym"), toolsA: filepath.Join(e.dir, "tools-a2l"), toolsL: filepath.Join(e.dir, "tools-llvm")}
 	for _, d := range []string{s.dir, s.toolsA, s.toolsL} {
 		os.MkdirAll(d, 0o755)
 	}
@@ -606,19 +607,29 @@ func (e *c13Env) runSymHist(cs *c13SymCase) {
 	go func() { wg.Wait(); close(done) }()
 	select {
 	case <-done:
-	case <-time.After(20 * time.Second):
-		c.Violation("C13/symbolizer/"+cs.Mode+"/concurrent/hang", fmt.Sprintf("%s chain: %d goroutines issuing %d lookups on shared handles did not finish within 20 s (desynchronised tool pipe?)", cs.Mode, cs.Conc, len(rest)), cs)
+	case <-time.After(10 * time.Second):
+		c.Violation("C13/symbolizer/"+cs.Mode+"/concurrent/hang", fmt.Sprintf("%s chain: %d goroutines issuing %d lookups on shared handles did not finish within 10 s (desynchronised tool pipe?)", cs.Mode, cs.Conc, len(rest)), cs)
+		s.hung[cs.Mode] = true      // further concurrent cases of this chain would only wait again
 		for _, h := range handles { // closing the tools' pipes releases blocked readers
 			if h != nil {
 				go h.Close()
 			}
 		}
+		finished := false
 		select {
 		case <-done:
+			finished = true
 		case <-time.After(5 * time.Second):
 		}
 		for i := range handles {
 			handles[i] = nil
+		}
+		if finished { // the answers that did arrive are still checked: they show what went wrong
+			for _, li := range rest {
+				if res[li].msg == "" && !check(li, cs.Lookups[li], res[li], cs) {
+					return
+				}
+			}
 		}
 		return
 	}
@@ -655,6 +666,10 @@ func (e *c13Env) runSymStreams(r *Rng) {
 				cs.Lookups = append(cs.Lookups, c13Lookup{H: cs.Lookups[k].H, Addr: cs.Biases[cs.Lookups[k].H] + f.Start + hx(r.Intn(int(f.Size)))})
 			}
 			c.Res.Count(fmt.Sprint("symhist-conc ", *cs), len(cs.Funcs) >= 2)
+			if e.sym != nil && e.sym.hung[st.mode] {
+				c.Res.Hit("sym:concurrent-skipped-after-hang," + st.mode)
+				continue
+			}
 			c.Res.Hit("sym:concurrent-cases," + st.mode)
 			e.runSymHist(cs)
 		}
